@@ -28,7 +28,8 @@ def generate(rng: random.Random, tier: str):
     for _ in range(120 if thorough else 24):
         cases.append({'kind': 'recon', 'traj': rng.choice(['cart_full', 'cart_full', 'cart_under', 'radial']), 'n': rng.choice([4, 4, 6]), 'coils': rng.choice([1, 2, 3]),
                       'scale': rng.choice([1.0, 1.0, 1e-3, 1e-6]), 'csm': rng.random() < 0.7, 'dcf': rng.random() < 0.5, 'noise': rng.random() < 0.4, 'lam': rng.choice([0.0, 0.0, 0.1, 2.0]),
-                      'reg_data': rng.choice(['zero', 'image']), 'reg_op': rng.choice(['identity', 'diag']), 'iters': rng.choice([1, 2, 3, 5]), 'seed': rng.randrange(1 << 30)})
+                      'reg_data': rng.choice(['zero', 'image']), 'reg_op': rng.choice(['identity', 'diag']), 'iters': rng.choice([1, 2, 3, 5]),
+                      'csm_callable': rng.random() < 0.3, 'seed': rng.randrange(1 << 30)})
     # 3-D Cartesian data (k2 > 1, different from k1) with a noise scan, and spatially varying regularisation weights with zeros
     for i in range(24 if thorough else 6):
         cases.append({'kind': 'recon', 'traj': 'cart_full', 'n': 4, 'nz': rng.choice([2, 3]) if i % 2 == 0 else 1, 'coils': rng.choice([2, 3]), 'csm': rng.random() < 0.7,
@@ -145,6 +146,30 @@ def run(case, drv) -> Outcome:
     def rel(a, b):
         return float((a.reshape(-1).to(torch.complex128) - b.reshape(-1)).abs().max()) / max(1e-12, float(b.abs().max()))
 
+    # ---- sensitivity maps configured as a callable: every reconstruction class computes them from the coil images F^H W y
+    # (prewhitened) of the data it is given at construction, and then behaves as if configured with the maps themselves
+    if case.get('csm_callable') and csm is not None:
+        seen = []
+
+        def calc(idata, csm=csm):
+            seen.append(idata.data.detach().clone())
+            return csm
+
+        Fd = dense_matrix(F, (1, coils, nz, n, n))
+        Wd = W if dcf is not None else torch.diag(DcfData.from_traj_voronoi(kd.traj).data.expand(1, *kd.data.shape[2:]).reshape(-1).repeat(coils).to(torch.complex128))
+        want_coil = Fd.conj().T @ (Wd @ yv)
+        for name, mk in (('DirectReconstruction', lambda: DirectReconstruction(kd, fourier_op=F, csm=calc, noise=noise, dcf=dcf)),
+                         ('IterativeSENSEReconstruction', lambda: IterativeSENSEReconstruction(kd, fourier_op=F, csm=calc, noise=noise, dcf=dcf, n_iterations=case['iters'])),
+                         ('RegularizedIterativeSENSEReconstruction', lambda: RegularizedIterativeSENSEReconstruction(
+                             kd, fourier_op=F, csm=calc, noise=noise, dcf=dcf, n_iterations=case['iters'], regularization_weight=0.1))):
+            seen.clear()
+            stc, rc = call(mk)
+            if stc != 'ok':
+                viol = viol or v(f'csm-callable-raises:{name}', f'{name}(kdata, csm=<callable>) raises {rc}')
+            elif rc.csm is not csm or len(seen) != 1:
+                viol = viol or v(f'csm-callable:{name}', f'{name}(kdata, csm=<callable>) does not use the maps returned by the callable')
+            elif rel(seen[0], want_coil) > TOL:
+                viol = viol or v(f'csm-callable-image:{name}', f'{name}: the coil images handed to the csm callable are not F^H W y (rel {rel(seen[0], want_coil):.2e})')
     # ---- direct reconstruction = S^H F^H W y
     st, direct = call(lambda: DirectReconstruction(None, fourier_op=F, csm=csm, noise=noise, dcf=dcf)(kd))
     want_direct = A.conj().T @ (W @ yv)
